@@ -4,19 +4,21 @@ literals the writer emits; (c) IndexMap liveness agreement between delete/set an
 of the same bytes; (e) complete() decision table; (f) status-line and header-name tables."""
 import re
 
-from .lib import decision, guards, paths
+from .lib import decision, guards, paths, pathsens
 from .lib.mir import AnchorLost, Call
 
 CONFIGS_QUICK = ["A"]
 CONFIGS_THOROUGH = ["A", "R", "ASYNCSTD", "SMOL", "NIO", "GLOMMIO", "NOAPI"]
-TECHNIQUE = "pairing rules on built MIR (capacity terms vs unchecked writes, store mutation vs size update, payload store vs Content-Length), representation-invariant lint of IndexMap, literal tables"
-LEVEL_TEXT = ("Decides clauses C03-a..f: in every arm of Response::send the summands of the reserved capacity cover, by provenance, each unchecked write "
-              "into that buffer, and only functions that reserved `size` call write_unchecked_to; every mutator of the response header stores updates "
-              "`size` on each mutating path, with the literals the writer emits per entry kind; IndexMap's readers and its delete/set agree on which "
-              "entries are live (no stale duplicate can be iterated); every function storing Content::Payload also sets Content-Length from the length "
-              "of the same bytes (Content::Stream: chunked, no length); complete() drops length and body for 204 and length for streams and is called on "
-              "every path of Router::handle; status lines and header names are well-formed tokens. Decides these clauses, not byte-level "
-              "well-formedness for all operation histories.")
+TECHNIQUE = ('pairing rules on built MIR (capacity terms vs unchecked writes, store mutation vs size update, payload store vs Content-Length), flag-sensitive must-'
+             'pass exploration of the Payload arm of send, representation-invariant lint of IndexMap, literal tables')
+LEVEL_TEXT = ('Decides clauses C03-a..g: in every arm of Response::send the summands of the reserved capacity cover, by provenance, each unchecked write into that '
+              'buffer, and only functions that reserved `size` call write_unchecked_to; every mutator of the response header stores updates `size` on each mutating '
+              "path, with the literals the writer emits per entry kind; IndexMap's readers and its delete/set agree on which entries are live (no stale duplicate can"
+              ' be iterated); every function storing Content::Payload also sets Content-Length from the length of the same bytes (Content::Stream: chunked, no '
+              'length); complete() drops length and body for 204 and length for streams and is called on every path of Router::handle; status lines and header names '
+              'are well-formed tokens; on every flag-consistent path through the Content::Payload arm of Response::send the payload bytes reach the connection '
+              'exactly once (staged into the buffer that is then written, or written directly), so the announced Content-Length is followed by that many bytes. '
+              'Decides these clauses, not byte-level well-formedness for all operation histories.')
 
 HDR = r"^ohkami::response::headers::Headers$"
 
@@ -31,6 +33,7 @@ def run(ck, progs):
         ck.guard("C03-c INVARIANT IndexMap", lambda: c03c(ck, prog))
         ck.guard("C03-d PAIR body-length", lambda: c03d(ck, prog))
         ck.guard("C03-e DECISION complete", lambda: c03e(ck, prog))
+        ck.guard("C03-g MUSTPASS payload sent", lambda: c03g(ck, prog))
         if cfg == "A":
             ck.guard("C03-f TABLE", lambda: c03f(ck, prog))
     ck.config = None
@@ -66,12 +69,21 @@ def c03a(ck, prog):
         if not ws:
             continue  # a buffer written only with checked methods (the SSE message)
         arms += 1
-        terms = [t for t, _ in decision.add_terms(f, c.args[0])]
+        terms0 = decision.add_terms(f, c.args[0])
+        terms = [t for t, _ in terms0]
         fa = [x for x in guards.facts_at(f, prog, c.bb) if x.kind == "variant" and x.allowed and len(x.allowed) == 1 and "content" in guards.describe_origin(f, x.steps)]
         arm = tuple(fa[-1].allowed)[0] if fa else "bb%d" % c.bb
         remaining = list(terms)
         for kind, what, wc in ws:
             nwrites += 1
+            # a summand chosen by a flag (`if inline {len} else {0}`) counts, for a write made under the same
+            # flag, as the value it has on that edge
+            for t, steps in terms0:
+                if t in remaining and steps and steps[-1][0] == "multi":
+                    alts = feasible_defs(f, steps[-1][1], wc.bb)
+                    if len(alts) == 1:
+                        remaining.remove(t)
+                        remaining += alts[0]
             want = "len(%s)" % what if kind == "copy" else None
             hit = None
             for t in remaining:
@@ -110,6 +122,101 @@ def c03a(ck, prog):
                 ok = re.search(r"^ohkami::response::(Response::send::\{closure#0\}|headers::Headers::write_unchecked_to)$", fn.key) is not None
                 if not ok:
                     ck.ob(R, "who:push_unchecked-in:" + fn.key[-70:], False, fn.loc(c.sp), "push_unchecked! is used in %s, outside the functions whose capacity this rule accounts for" % fn.key)
+
+
+def feasible_defs(f, local, at_bb):
+    """summands of each definition of `local` that can reach `at_bb` given the flag edges dominating both"""
+    here = pathsens.edges_into(f, at_bb)
+    out = []
+    for (dbb, si, dk, payload) in f.defs().get(local, []):
+        if f.is_cleanup(dbb):
+            continue
+        if not pathsens.compatible(pathsens.edges_into(f, dbb), here):
+            continue
+        if dk == "assign" and not payload["p"][1] and payload["r"][0] == "use":
+            out.append([t for t, _ in decision.add_terms(f, payload["r"][1])])
+        elif dk == "call":
+            c = Call(f, dbb, payload, False)
+            out.append(["%s(%s)" % (c.name, ",".join(decision.describe_deep(f, a, 4) for a in c.args))])
+        else:
+            out.append(["?"])
+    return out
+
+
+# ------------------------------------------------------------------------------------------------
+def c03g(ck, prog):
+    """Content-Length is derived from the payload (C03-d); here: on every feasible path through the Payload arm of
+    Response::send the payload bytes go to the connection exactly once (staged in the buffer that is then written,
+    or written directly)."""
+    R = "C03-g MUSTPASS payload sent"
+    f = prog.coroutine_body(prog.one(r"^ohkami::response::Response::send$").key)
+    arm = None
+    for bi in sorted(f.live_blocks()):
+        info = f.switch_info(bi) if f.blocks[bi]["t"]["k"] == "switch" else None
+        if not info or info["kind"] != "variant" or "response::content::Content" not in (info.get("ty") or ""):
+            continue
+        names = prog.variant_names(info["ty"]) or {}
+        for tb, lab in f.succ(bi):
+            if lab != "otherwise" and names.get(lab) == "Payload":
+                arm = (bi, tb)
+    if arm is None:
+        raise AnchorLost("no match arm `Content::Payload` in Response::send")
+    sw, entry = arm
+
+    def is_payload(op):
+        # the payload itself, possibly behind deref/as_ref/as_ptr wrappers -- not an expression that merely mentions it
+        return re.fullmatch(r"(?:\w+\()*arg\d+[\w.^]*content@Payload\.0\)*", decision.describe_deep(f, op, 6)) is not None
+
+    bufs = {c.bb for c in f.calls_to(r"Vec::<T>::with_capacity$|Vec::<T, A>::with_capacity(_in)?$")}
+
+    def event(bb):
+        c = f.call_at(bb)
+        if c is None:
+            return None
+        if c.name == "copy_nonoverlapping" and len(c.args) >= 2 and is_payload(c.args[0]):
+            return "stage"
+        if c.name in ("extend_from_slice", "extend", "append", "push_str") and len(c.args) >= 2 and is_payload(c.args[1]):
+            return "stage"
+        if c.name in ("write_all", "write", "write_all_vectored", "send"):
+            if any(is_payload(a) for a in c.args[1:]):
+                return "send-payload"
+            for a in c.args[1:]:
+                rc = paths.root_call(f, a)
+                if rc is not None and rc.bb in bufs:
+                    return "send-buf"
+        return None
+
+    def step(st, tok):
+        staged, sent = st
+        if tok == "stage":
+            return (min(staged + 1, 2), sent)
+        if tok == "send-buf":
+            return (0, min(sent + staged, 2))
+        if tok == "send-payload":
+            return (staged, min(sent + 1, 2))
+        return st
+
+    def stop(bb):
+        t = f.blocks[bb]["t"]
+        return (not f.edge_dominates(sw, entry, bb)) or t["k"] in ("return", "unreachable") or (t["k"] == "call" and t.get("target") is None)
+
+    exits = pathsens.explore(f, entry, stop, event, (0, 0), step)
+    nev = sum(1 for b in f.live_blocks() if f.edge_dominates(sw, entry, b) and event(b))
+    bad = []
+    nexit = 0
+    for (staged, sent), bbs in sorted(exits.items()):
+        for bb in sorted(bbs):
+            t = f.blocks[bb]["t"]
+            if t["k"] in ("unreachable",) or (t["k"] == "call" and t.get("target") is None):
+                continue  # diverging (`expect` on a failed write, the impossible arm of a poll match)
+            nexit += 1
+            if sent != 1 or staged != 0:
+                bad.append(((staged, sent), bb))
+    ok = not bad and nev >= 2 and nexit >= 1
+    ck.ob(R, "Payload-arm", ok, f.loc(f.blocks[entry]["t"].get("sp")),
+          "" if ok else "Response::send (arm Payload): a feasible path leaves the arm having put the payload on the wire %s time(s)%s while Content-Length announces its length once (exit state(s) %s; %d staging/sending call(s) seen)"
+          % (bad[0][0][1] if bad else 0, " with bytes staged but not written" if bad and bad[0][0][0] else "", [b[0] for b in bad], nev),
+          how="every flag-consistent path through the arm stages/sends the payload exactly once (%d normal exit(s), %d event call(s))" % (nexit, nev))
 
 
 # ------------------------------------------------------------------------------------------------
